@@ -712,6 +712,15 @@ class Intervals:
                             m = meet(val, tr)
                             val = tr if (m == "bot" or not t.get("sg")) else m
                         self._kill_rels(st, v["d"])
+                        r00 = strip(kids(v)[0])
+                        if r00 is not None and r00.get("k") == "CallExpr" and r00.get("callee") in self.bounded_calls:
+                            # a bounded writer returns at most its size argument
+                            args0 = call_args(r00)
+                            si0 = self.bounded_calls[r00["callee"]]
+                            if si0 < len(args0):
+                                szr = self.eval(args0[si0], st)
+                                if szr[1] is not None:
+                                    val = meet(val, (0, szr[1])) if meet(val, (0, szr[1])) != "bot" else val
                         sp = self._span_result(st, v["d"], kids(v)[0])
                         if sp is not None:
                             val = sp[0]
